@@ -398,9 +398,20 @@ def implied_remaining(cfg, input_states):
 
 
 def first_stage_input_states(state):
+  """Source positions that the restore of the LAST stage will really use.
+
+  A chained state is {stage name: _IteratorState}; the last stage's state nests
+  the states of its upstream stages (captured a little later than the top-level
+  entries of the upstream stages when worker threads are running).
+  """
   if isinstance(state, dict):
-    state = state[next(iter(state))]
-  return list(state.input_states)
+    state = state[list(state)[-1]]
+  while True:
+    ins = list(state.input_states)
+    if ins and hasattr(ins[0], 'input_states'):
+      state = ins[0]
+    else:
+      return ins
 
 
 # ---------------------------------------------------------------------------
